@@ -54,7 +54,10 @@ theorem sshiftRight63 (v : BitVec 64) :
 /-- C15 headline: the Go expression `(v << 1) ^ (v >> 31)` is "shift, then flip all bits when negative" -/
 theorem encodeZigZag32_eq (v : BitVec 32) :
     Gen.encodeZigZag32 v = (v <<< 1) ^^^ (if v.msb then 0xFFFFFFFF#32 else 0#32) := by
-  unfold encodeZigZag32; rw [sshiftRight31]
+  unfold encodeZigZag32
+  first
+  | (rw [sshiftRight31]; done)
+  | (rw [sshiftRight31, BitVec.xor_comm])
 
 theorem encodeZigZag32_not (v : BitVec 32) :
     Gen.encodeZigZag32 v = if v.msb then ~~~(v <<< 1) else v <<< 1 := by
